@@ -359,6 +359,39 @@ func runC07(c *Ctx) {
 		"the number of segments generated for a fixed-size variable is compared for equality with the template's segment count",
 		"the generated segment count of a multi-segment variable is not required to EQUAL the template's count (comparisons found: "+joinStr(ops)+"): a value with extra segments spills into the following template segments and re-parses to a different message")
 
+	// ---------------------------------------------------------------- C07.7
+	c.Rule("C07.7", "the escaped path produced by a request-line builder is kept as URL.RawPath", 1)
+	handleFn := p.MustFunc("(*operation).handle")
+	okRaw := false
+	nRawStores := 0
+	for _, w := range FieldWrites(handleFn) {
+		if w.Field.Name() != "RawPath" || !isPtrTo(w.Base.Type(), "net/url", "URL") {
+			continue
+		}
+		nRawStores++
+		fromBuilder := func(v ssa.Value) bool {
+			for _, l := range Origins(v) {
+				if l.Kind == "call" && l.Call.Common().IsInvoke() && l.Call.Common().Method.Name() == "requestLine" && l.Index == 0 && len(l.Ops) == 0 {
+					return true
+				}
+			}
+			return false
+		}
+		if fromBuilder(w.Store.Val) {
+			okRaw = true
+		}
+		// or: the value is a re-load of URL.Path, which a dominating store filled from the builder
+		if lf := LoadedField(w.Store.Val); lf != nil && lf.Name() == "Path" && lf.Pkg() != nil && lf.Pkg().Path() == "net/url" {
+			for _, w2 := range FieldWrites(handleFn) {
+				if w2.Field == lf && instrBefore(w2.Store, w.Store) && fromBuilder(w2.Store.Val) {
+					okRaw = true
+				}
+			}
+		}
+	}
+	c.Check(okRaw && nRawStores > 0, "C07.7", FuncName(handleFn), "rawpath-keeps-escaped-form", handleFn.Pos(),
+		"URL.RawPath is stored from the request-line builder's own (escaped) path", "the escaped path computed for the backend is not preserved in URL.RawPath: net/url re-escapes the decoded path with a smaller escape set, so '/', ':' ... inside a variable value change the segment structure and the request no longer re-parses to the original message")
+
 	// ---------------------------------------------------------------- C07.6
 	c.Rule("C07.6", "query parameters generated inside loops are added, not overwritten", 1)
 	encFn := p.MustFunc("httpEncodePathValues")
